@@ -34,12 +34,12 @@ theorem add_exact_eq_spec (R : Rounding) (a b : Num) (x : Int) (sx : Nat) (y : I
     (opAdd R a b).map absNum = specBin R .add (absNum a) (absNum b) := by
   cases a <;> cases b <;> simp [asDec] at ha hb
   all_goals (obtain ⟨rfl, rfl⟩ := ha; obtain ⟨rfl, rfl⟩ := hb)
-  · simp [opAdd, coerce, absNum, specBin, promote, XVal.ty, Ty.rank, XVal.toRat?, exactBin, Except.map, pure, Except.pure]
+  · simp [opAdd, coerce, mixedOverflow, intOvf, isFloat, absNum, specBin, promote, XVal.ty, Ty.rank, XVal.toRat?, exactBin, Except.map, pure, Except.pure]
     rw [← Int.cast_add, floor_intCast']
   all_goals
     simp only [trigIdef_bin, asDec, decide_eq_false_iff_not, not_lt] at hfit
     have h := decAdd_exact _ _ _ _ hfit
-    simp [opAdd, coerce, asDec, mkDec, absNum_dec, specBin, promote, XVal.ty, Ty.rank, XVal.toRat?, exactBin,
+    simp [opAdd, coerce, mixedOverflow, intOvf, isFloat, asDec, mkDec, absNum_dec, specBin, promote, XVal.ty, Ty.rank, XVal.toRat?, exactBin,
       Except.map, pure, Except.pure, absNum, h, decVal_zero_scale]
     first | done | (simp only [decVal] at h; simpa [p10] using h)
 
@@ -73,20 +73,20 @@ theorem idiv_exact_eq_spec (R : Rounding) (a b : Num) (x : Int) (sx : Nat) (y : 
              have h3 := h3.symm; have h4 := h4.symm; subst h1 h2 h3 h4)
   · -- int, int
     by_cases hy : y = 0
-    · simp [opIdiv, coerce, numIsInf, numIsNan, isZero, hy, absNum, specBin, XVal.toRat?, exactBin,
+    · simp [opIdiv, coerce, mixedOverflow, intOvf, isFloat, numIsInf, numIsNan, isZero, hy, absNum, specBin, XVal.toRat?, exactBin,
         Except.map, throw, throwThe, MonadExceptOf.throw]
     · have hyq : (y : Rat) ≠ 0 := by exact_mod_cast hy
-      simp [opIdiv, coerce, numIsInf, numIsNan, isZero, hy, hyq, absNum, specBin, XVal.toRat?, exactBin,
+      simp [opIdiv, coerce, mixedOverflow, intOvf, isFloat, numIsInf, numIsNan, isZero, hy, hyq, absNum, specBin, XVal.toRat?, exactBin,
         Except.map, pure, Except.pure, idivInt_eq_tdiv, trunc_div_int _ _ hy]
   all_goals
     by_cases hy : y = 0
-    · simp [opIdiv, coerce, numIsInf, numIsNan, isZero, hy, absNum, specBin, XVal.toRat?, exactBin,
+    · simp [opIdiv, coerce, mixedOverflow, intOvf, isFloat, numIsInf, numIsNan, isZero, hy, absNum, specBin, XVal.toRat?, exactBin,
         Except.map, throw, throwThe, MonadExceptOf.throw, p10]
     · simp [trigIdef_bin, asDec, hy] at hfit
       have hd := decIdiv_of_fits _ _ _ _ hfit
       have hq := decIdiv_eq_trunc _ _ y _ hy _ hd
       have hyq : (y : Rat) ≠ 0 := by exact_mod_cast hy
-      simp [opIdiv, coerce, numIsInf, numIsNan, isZero, hy, hyq, absNum, specBin, XVal.toRat?, exactBin,
+      simp [opIdiv, coerce, mixedOverflow, intOvf, isFloat, numIsInf, numIsNan, isZero, hy, hyq, absNum, specBin, XVal.toRat?, exactBin,
         Except.map, pure, Except.pure, asDec, hd, p10_castR_pos]
       first
         | exact hq
@@ -109,18 +109,18 @@ theorem mod_exact_eq_spec (R : Rounding) (v : Ver) (a b : Num) (x : Int) (sx : N
              have h3 := h3.symm; have h4 := h4.symm; subst h1 h2 h3 h4)
   · -- int, int
     by_cases hy : y = 0
-    · simp [opMod, coerce, numIsInf, isZero, isFloat, hy, absNum, specBin, XVal.toRat?, exactBin,
+    · simp [opMod, coerce, mixedOverflow, intOvf, isFloat, numIsInf, isZero, isFloat, hy, absNum, specBin, XVal.toRat?, exactBin,
         Except.map, throw, throwThe, MonadExceptOf.throw]
     · have hyq : (y : Rat) ≠ 0 := by exact_mod_cast hy
       have hm : ((x : Rat) - (y : Rat) * ((x.tdiv y : Int) : Rat)) = ((x.tmod y : Int) : Rat) := by
         have := Int.mul_tdiv_add_tmod x y
         have e : x.tmod y = x - y * x.tdiv y := by omega
         rw [e]; push_cast; ring
-      simp [opMod, coerce, numIsInf, isZero, isFloat, hy, hyq, absNum, specBin, XVal.toRat?, exactBin, promote,
+      simp [opMod, coerce, mixedOverflow, intOvf, isFloat, numIsInf, isZero, isFloat, hy, hyq, absNum, specBin, XVal.toRat?, exactBin, promote,
         XVal.ty, Ty.rank, Except.map, pure, Except.pure, modInt_eq_tmod, trunc_div_int _ _ hy, hm, floor_intCast']
   all_goals
     by_cases hy : y = 0
-    · simp [opMod, coerce, numIsInf, isZero, isFloat, hy, absNum, specBin, XVal.toRat?, exactBin, asDec,
+    · simp [opMod, coerce, mixedOverflow, intOvf, isFloat, numIsInf, isZero, isFloat, hy, absNum, specBin, XVal.toRat?, exactBin, asDec,
         Except.map, throw, throwThe, MonadExceptOf.throw, p10]
     · simp only [trigIdef_bin, asDec] at hfit
       have hne : (y != 0) = true := by simpa using hy
@@ -129,7 +129,7 @@ theorem mod_exact_eq_spec (R : Rounding) (v : Ver) (a b : Num) (x : Int) (sx : N
       obtain ⟨r, hr⟩ := decMod_of_fits _ _ _ _ hfit.1
       have hq := decMod_eq_spec _ _ y _ hy r hr hfit.2
       have hyq : (y : Rat) ≠ 0 := by exact_mod_cast hy
-      simp [opMod, coerce, numIsInf, isZero, isFloat, hy, hyq, absNum, specBin, XVal.toRat?, exactBin, promote,
+      simp [opMod, coerce, mixedOverflow, intOvf, isFloat, numIsInf, isZero, isFloat, hy, hyq, absNum, specBin, XVal.toRat?, exactBin, promote,
         XVal.ty, Ty.rank, Except.map, pure, Except.pure, asDec, hr, mkDec, p10_castR_pos]
       first
         | exact hq
@@ -138,7 +138,7 @@ theorem mod_exact_eq_spec (R : Rounding) (v : Ver) (a b : Num) (x : Int) (sx : N
 theorem div_dbl_eq_spec (R : Rounding) (v : Ver) (x y : Dbl) (hx : x.wf) :
     (opDiv R v (.dbl x) (.dbl y)).map absNum = specBin R .div (.double x) (.double y) := by
   cases x <;> cases y <;>
-    simp [opDiv, coerce, isZero, Dbl.isZero, asDec, liftF, ftruediv, ieeeDiv, specBin, promote, XVal.ty, Ty.rank,
+    simp [opDiv, coerce, mixedOverflow, intOvf, isFloat, isZero, Dbl.isZero, asDec, liftF, ftruediv, ieeeDiv, specBin, promote, XVal.ty, Ty.rank,
       XVal.toRat?, floatBin, XVal.toDbl, mkFloating, absNum, isFloat, signOf, zeroIsNeg, Dbl.isNeg, Except.map, pure, Except.pure]
   · rename_i a b; cases a <;> simp
   · rename_i q b
@@ -154,7 +154,7 @@ theorem mod_dbl_eq_spec_partial (R : Rounding) (v : Ver) (x y : Dbl)
     (hk : trigF06x R v .mod (.dbl x) (.dbl y) = false) :
     (opMod R v (.dbl x) (.dbl y)).map absNum = specBin R .mod (.double x) (.double y) := by
   cases x <;> cases y <;> cases v <;>
-    simp_all [opMod, coerce, isZero, Dbl.isZero, asDec, liftF, fmod, ieeeMod, specBin, promote, XVal.ty, Ty.rank,
+    simp_all [opMod, coerce, mixedOverflow, intOvf, isFloat, isZero, Dbl.isZero, asDec, liftF, fmod, ieeeMod, specBin, promote, XVal.ty, Ty.rank,
       XVal.toRat?, floatBin, XVal.toDbl, mkFloating, absNum, isFloat, numIsInf, numIsNan, Dbl.isInf, Dbl.isNan,
       pyFloatModIsNan, trigF06x, Except.map, pure, Except.pure]
 
@@ -191,7 +191,7 @@ theorem floor_corr_eq_trunc (q : Rat) :
 theorem idiv_dbl_eq_spec (R : Rounding) (x y : Dbl) :
     (opIdiv R (.dbl x) (.dbl y)).map absNum = specBin R .idiv (.double x) (.double y) := by
   cases x <;> cases y <;>
-    simp [opIdiv, coerce, isZero, Dbl.isZero, asDec, idivFloat, dblIdiv, specBin, promote, XVal.ty, Ty.rank,
+    simp [opIdiv, coerce, mixedOverflow, intOvf, isFloat, isZero, Dbl.isZero, asDec, idivFloat, dblIdiv, specBin, promote, XVal.ty, Ty.rank,
       XVal.toRat?, floatBin, XVal.toDbl, absNum, numIsInf, numIsNan, Dbl.isInf, Dbl.isNan,
       Except.map, pure, Except.pure, bind, Except.bind, throw, throwThe, MonadExceptOf.throw]
   rename_i p q
@@ -251,14 +251,14 @@ theorem sub_exact_eq_spec (R : Rounding) (a b : Num) (x : Int) (sx : Nat) (y : I
   cases a <;> cases b <;> simp [asDec] at ha hb
   all_goals (obtain ⟨h1, h2⟩ := ha; obtain ⟨h3, h4⟩ := hb; have h1 := h1.symm; have h2 := h2.symm
              have h3 := h3.symm; have h4 := h4.symm; subst h1 h2 h3 h4)
-  · simp [opSub, coerce, absNum, specBin, promote, XVal.ty, Ty.rank, XVal.toRat?, exactBin, Except.map, pure, Except.pure]
+  · simp [opSub, coerce, mixedOverflow, intOvf, isFloat, absNum, specBin, promote, XVal.ty, Ty.rank, XVal.toRat?, exactBin, Except.map, pure, Except.pure]
     rw [← Int.cast_sub, floor_intCast']
   all_goals
     simp only [trigIdef_bin, asDec, decide_eq_false_iff_not, not_lt] at hfit
     rw [Int.sub_eq_add_neg, ← Int.neg_mul] at hfit
     have h := decAdd_exact _ _ _ _ hfit
     rw [decVal_neg] at h
-    simp [opSub, coerce, asDec, mkDec, absNum_dec, specBin, promote, XVal.ty, Ty.rank, XVal.toRat?, exactBin,
+    simp [opSub, coerce, mixedOverflow, intOvf, isFloat, asDec, mkDec, absNum_dec, specBin, promote, XVal.ty, Ty.rank, XVal.toRat?, exactBin,
       Except.map, pure, Except.pure, absNum, h, decVal_zero_scale, sub_eq_add_neg]
     first | done | (simp only [decVal] at h; simpa [p10, sub_eq_add_neg] using h)
 
@@ -269,12 +269,12 @@ theorem mul_exact_eq_spec (R : Rounding) (a b : Num) (x : Int) (sx : Nat) (y : I
   cases a <;> cases b <;> simp [asDec] at ha hb
   all_goals (obtain ⟨h1, h2⟩ := ha; obtain ⟨h3, h4⟩ := hb; have h1 := h1.symm; have h2 := h2.symm
              have h3 := h3.symm; have h4 := h4.symm; subst h1 h2 h3 h4)
-  · simp [opMul, coerce, absNum, specBin, promote, XVal.ty, Ty.rank, XVal.toRat?, exactBin, Except.map, pure, Except.pure]
+  · simp [opMul, coerce, mixedOverflow, intOvf, isFloat, absNum, specBin, promote, XVal.ty, Ty.rank, XVal.toRat?, exactBin, Except.map, pure, Except.pure]
     rw [← Int.cast_mul, floor_intCast']
   all_goals
     simp only [trigIdef_bin, asDec, decide_eq_false_iff_not, not_lt] at hfit
     have h := fun sa sb => decMul_exact x sa y sb hfit
-    simp [opMul, coerce, asDec, mkDec, absNum_dec, specBin, promote, XVal.ty, Ty.rank, XVal.toRat?, exactBin,
+    simp [opMul, coerce, mixedOverflow, intOvf, isFloat, asDec, mkDec, absNum_dec, specBin, promote, XVal.ty, Ty.rank, XVal.toRat?, exactBin,
       Except.map, pure, Except.pure, absNum, decVal_zero_scale]
     first
       | done
@@ -287,7 +287,7 @@ theorem div_zero_exact (R : Rounding) (v : Ver) (hv : v ≠ .v10) (a b : Num)
     (ha : isFloat a = false) (hb : isFloat b = false) (hz : isZero b = true) :
     opDiv R v a b = .error .FOAR0001 ∧ opIdiv R a b = .error .FOAR0001 ∧ opMod R v a b = .error .FOAR0001 := by
   cases a <;> cases b <;> simp [isFloat] at ha hb <;> simp [isZero] at hz <;> subst hz <;> cases v <;>
-    simp_all [opDiv, opIdiv, opMod, coerce, isZero, isFloat, numIsInf, numIsNan, asDec, throw, throwThe,
+    simp_all [opDiv, opIdiv, opMod, coerce, mixedOverflow, intOvf, isFloat, isZero, isFloat, numIsInf, numIsNan, asDec, throw, throwThe,
       MonadExceptOf.throw]
 
 
@@ -376,8 +376,9 @@ theorem type_promotion_addsubmul (R : Rounding) (a b r : Num) :
     (opMul R a b = .ok r → numTy r = promote (numTy a) (numTy b)) := by
   refine ⟨?_, ?_, ?_⟩ <;> intro h <;>
   cases a <;> cases b <;>
-    simp [opAdd, opSub, opMul, coerce, asDec, liftF, mkDec, pure, Except.pure] at h <;>
-    subst h <;> simp [numTy, promote, Ty.rank]
+    simp [opAdd, opSub, opMul, coerce, mixedOverflow, intOvf, isFloat, asDec, liftF, mkDec, pure, Except.pure,
+      throw, throwThe, MonadExceptOf.throw] at h <;>
+    (try split at h) <;> (try cases h) <;> (try subst h) <;> simp_all [numTy, promote, Ty.rank]
 
 
 theorem type_idiv (R : Rounding) (a b r : Num) (h : opIdiv R a b = .ok r) : numTy r = .integer := by
@@ -389,7 +390,7 @@ theorem type_idiv (R : Rounding) (a b r : Num) (h : opIdiv R a b = .ok r) : numT
 theorem type_div_partial (R : Rounding) (v : Ver) (hv : v ≠ .v10) (a b r : Num) (h : opDiv R v a b = .ok r)
     (hk : trigF06t R v .div a b = false) : numTy r = resultTy .div (numTy a) (numTy b) := by
   cases a <;> cases b <;>
-    simp [opDiv, coerce, asDec, liftF, mkDec, pure, Except.pure, throw, throwThe, MonadExceptOf.throw,
+    simp [opDiv, coerce, mixedOverflow, intOvf, isFloat, asDec, liftF, mkDec, pure, Except.pure, throw, throwThe, MonadExceptOf.throw,
       trigF06t, floatTyped, isFlt, isDbl] at h hk <;>
     (repeat' split at h) <;> (try cases h) <;> simp_all [numTy, resultTy, promote, Ty.rank, isZero, isFloat]
 
@@ -397,7 +398,7 @@ theorem type_mod_partial (R : Rounding) (v : Ver) (hv : v ≠ .v10) (a b r : Num
     (hk : trigF06t R v .mod a b = false) :
     numTy r = resultTy .mod (numTy a) (numTy b) := by
   cases a <;> cases b <;>
-    simp [opMod, coerce, asDec, liftF, mkDec, pure, Except.pure, throw, throwThe, MonadExceptOf.throw,
+    simp [opMod, coerce, mixedOverflow, intOvf, isFloat, asDec, liftF, mkDec, pure, Except.pure, throw, throwThe, MonadExceptOf.throw,
       trigF06t, floatTyped, isFlt, isDbl, numIsInf, numIsNan, isFloat] at h hk <;>
     (repeat' split at h) <;> (try cases h) <;> simp_all [numTy, resultTy, promote, Ty.rank, isZero, isFloat]
 
@@ -405,23 +406,23 @@ theorem type_mod_partial (R : Rounding) (v : Ver) (hv : v ≠ .v10) (a b r : Num
 theorem idiv_int_int_eq_spec (R : Rounding) (x y : Int) :
     (opIdiv R (.int x) (.int y)).map absNum = specBin R .idiv (.integer x) (.integer y) := by
   by_cases hy : y = 0
-  · simp [opIdiv, coerce, numIsInf, numIsNan, isZero, hy, absNum, specBin, XVal.toRat?, exactBin,
+  · simp [opIdiv, coerce, mixedOverflow, intOvf, isFloat, numIsInf, numIsNan, isZero, hy, absNum, specBin, XVal.toRat?, exactBin,
       Except.map, throw, throwThe, MonadExceptOf.throw]
   · have hyq : (y : Rat) ≠ 0 := by exact_mod_cast hy
-    simp [opIdiv, coerce, numIsInf, numIsNan, isZero, hy, hyq, absNum, specBin, XVal.toRat?, exactBin,
+    simp [opIdiv, coerce, mixedOverflow, intOvf, isFloat, numIsInf, numIsNan, isZero, hy, hyq, absNum, specBin, XVal.toRat?, exactBin,
       Except.map, pure, Except.pure, idivInt_eq_tdiv, trunc_div_int _ _ hy]
 
 theorem mod_int_int_eq_spec (R : Rounding) (v : Ver) (x y : Int) :
     (opMod R v (.int x) (.int y)).map absNum = specBin R .mod (.integer x) (.integer y) := by
   by_cases hy : y = 0
-  · simp [opMod, coerce, numIsInf, isZero, isFloat, hy, absNum, specBin, XVal.toRat?, exactBin,
+  · simp [opMod, coerce, mixedOverflow, intOvf, isFloat, numIsInf, isZero, isFloat, hy, absNum, specBin, XVal.toRat?, exactBin,
       Except.map, throw, throwThe, MonadExceptOf.throw]
   · have hyq : (y : Rat) ≠ 0 := by exact_mod_cast hy
     have hm : ((x : Rat) - (y : Rat) * ((x.tdiv y : Int) : Rat)) = ((x.tmod y : Int) : Rat) := by
       have := Int.mul_tdiv_add_tmod x y
       have e : x.tmod y = x - y * x.tdiv y := by omega
       rw [e]; push_cast; ring
-    simp [opMod, coerce, numIsInf, isZero, isFloat, hy, hyq, absNum, specBin, XVal.toRat?, exactBin, promote,
+    simp [opMod, coerce, mixedOverflow, intOvf, isFloat, numIsInf, isZero, isFloat, hy, hyq, absNum, specBin, XVal.toRat?, exactBin, promote,
       XVal.ty, Ty.rank, Except.map, pure, Except.pure, modInt_eq_tmod, trunc_div_int _ _ hy, hm, floor_intCast']
 
 end EPV.Arith
